@@ -46,7 +46,7 @@ def describe(tier):
         'incl. inputs and repeats, all sinks) x all 2^n assignments x every evaluation entry '
         'point; operator tables on all Boolean operand vectors (arity<=4 for n-ary); storage '
         'permutations via bench text and relabelings; the duplicated gate tables of '
-        'circuit_search/_utils/subcircuit compared entry by entry. A case is one '
+        'circuit_search/_utils/subcircuit compared entry by entry; Tseytin templates (both polarities), bench converters and fix_gate type pinning on one-gate circuits of every type, arity 2..5 and operand tuple. A case is one '
         '(circuit, output policy); distinct = distinct gate truth-table signatures.',
         'bounds': {
             'quick': 'F(0..2,<=2,FULL), F(3,1,FULL), F(2,1,4-ary)',
@@ -340,6 +340,68 @@ def check_tables(acc):
         acc.transitions += 1
         if got != want:
             acc.violation('subcircuit._generate_inputs_tt/wrong', {'size': size}, got)
+    # --- CNF templates, bench converters and synthesis gate-type pinning on one-gate circuits of every
+    #     type and arity (operands: all tuples over two inputs, arity 2..5 for the n-ary types)
+    from cirbo.sat.cnf import tseytin_transformation
+    from cirbo.synthesis.circuit_search import CircuitFinderSat
+    from cirbo.core.truth_table import TruthTableModel
+    from vmc.props import c05
+
+    for t in refmodel.ALL_TYPES:
+        if t in refmodel.UNARY:
+            arities = (1,)
+        elif t in refmodel.CONST:
+            arities = (0,)
+        elif t in refmodel.SYM:
+            arities = (2, 3, 4, 5)
+        else:
+            arities = (2,)
+        for ar in arities:
+            for ops in itertools.product(range(2), repeat=ar):
+                n, gates, outs = 2, ((t, ops),), (2,)
+                net = space.spec_net(n, gates, outs)
+                ref = net.tables()
+                case = space.spec_json(n, gates, outs)
+                acc.states += 1
+                acc.traces += 1
+                acc.transitions += 2
+                c = space.build(n, gates, outs)
+                for extra, label in ((None, 'g0'), ('NOT', 'neg')):
+                    cc = space.build(n, gates + ((('NOT', (2,)),) if extra else ()), (3,) if extra else (2,))
+                    nn = space.spec_net(n, gates + ((('NOT', (2,)),) if extra else ()), (3,) if extra else (2,))
+                    ok, cnf = guarded(acc, 'tseytin-template', case, tseytin_transformation, cc)
+                    if ok:
+                        c05.check_cnf(acc, {**case, 'polarity': label}, cnf.get_raw(), nn, nn.tables(), n, nn.outputs)
+                ok, _ = guarded(acc, 'convert-one-gate', case, c.into_bench)
+                if ok:
+                    got = refmodel.abstract(c)
+                    try:
+                        if got.tables()['g0'] != ref['g0']:
+                            acc.violation('converters/one-gate-function-changed', case, got.to_json())
+                    except Exception as e:  # noqa: BLE001
+                        acc.violation('converters/one-gate-not-evaluable', case, repr(e))
+    for t in bin_types:
+        tt = ''.join(str(b) for b in tt4(t))
+        for wanted in (t, by_tt[tt4(t)[0:1] + tt4(t)[2:3] + tt4(t)[1:2] + tt4(t)[3:4]]):
+            # pinning type `wanted` on a one-gate search for the function of `t`
+            acc.states += 1
+            acc.traces += 1
+            acc.transitions += 1
+            case = {'pin': wanted, 'function_of': t}
+            try:
+                f = CircuitFinderSat(TruthTableModel([list(tt)]), 1, basis='FULL')
+                f.fix_gate(2, first_predecessor=0, second_predecessor=1, gate_type=getattr(G, wanted))
+                try:
+                    r = f.find_circuit()
+                    found = r.get_gate('s2').gate_type.name
+                except Exception as e:  # noqa: BLE001
+                    found = type(e).__name__
+            except Exception as e:  # noqa: BLE001
+                acc.violation('fix_gate(gate_type)/raises', case, repr(e))
+                continue
+            expect = wanted if tt4(wanted) == tt4(t) else 'NoSolutionError'
+            if found != expect:
+                acc.violation('fix_gate(gate_type)/pins-a-different-function', case, f'got {found} expected {expect}')
     acc.sample({'table': 'circuit_search._tt_to_gate_type', 'entry': [0, 0, 1, 0], 'type': 'GT'})
 
 
